@@ -392,6 +392,18 @@ impl RtpsReaderProxy {
   }
 }
 
+// Verification hook: read-only view of the requested-fragments map.
+#[cfg(rustdds_verif)]
+impl RtpsReaderProxy {
+  pub(crate) fn verif_frags_requested(&self) -> Vec<(i64, Vec<bool>)> {
+    self
+      .frags_requested
+      .iter()
+      .map(|(sn, bv)| (i64::from(*sn), bv.iter().collect()))
+      .collect()
+  }
+}
+
 pub struct FragBitVecIterator {
   sequence_number: SequenceNumber,
   frag_count: FragmentNumber,
